@@ -39,6 +39,8 @@ type Fn struct {
 	addrTaken map[types.Object]bool
 	where     map[ast.Node]nodeRef
 	preds     map[int32][]edge
+	liveIn    map[int32]map[types.Object]bool
+	locals    map[types.Object]bool
 }
 
 type nodeRef struct {
@@ -145,7 +147,169 @@ func (e *Engine) prepare(info *types.Info, name string, node ast.Node, body *ast
 			f.preds[s.Index] = append(f.preds[s.Index], edge{b, si})
 		}
 	}
+	f.liveness()
 	return f
+}
+
+// liveness computes, per block, the local variables whose value may still be
+// read (used to drop facts about dead variables, which only weakens states).
+func (f *Fn) liveness() {
+	f.liveIn = map[int32]map[types.Object]bool{}
+	f.locals = map[types.Object]bool{}
+	use := map[int32]map[types.Object]bool{}
+	// every local variable defined inside the body; parameters are kept always live
+	ast.Inspect(f.Body, func(n ast.Node) bool {
+		if id, ok := n.(*ast.Ident); ok {
+			if v, ok := f.Info.Defs[id].(*types.Var); ok && !v.IsField() {
+				f.locals[v] = true
+			}
+		}
+		return true
+	})
+	for obj := range f.volatile {
+		delete(f.locals, obj)
+	}
+	for obj := range f.addrTaken {
+		delete(f.locals, obj)
+	}
+	// variables mentioned inside function literals or defers are always live
+	ast.Inspect(f.Body, func(n ast.Node) bool {
+		switch x := n.(type) {
+		case *ast.FuncLit:
+			ast.Inspect(x.Body, func(m ast.Node) bool {
+				if id, ok := m.(*ast.Ident); ok {
+					if obj := f.Info.Uses[id]; obj != nil {
+						delete(f.locals, obj)
+					}
+				}
+				return true
+			})
+			return false
+		case *ast.DeferStmt:
+			ast.Inspect(x, func(m ast.Node) bool {
+				if id, ok := m.(*ast.Ident); ok {
+					if obj := f.Info.Uses[id]; obj != nil {
+						delete(f.locals, obj)
+					}
+				}
+				return true
+			})
+			return false
+		}
+		return true
+	})
+	for _, b := range f.CFG.Blocks {
+		if !b.Live {
+			continue
+		}
+		u := map[types.Object]bool{}
+		use[b.Index] = u
+		for _, n := range b.Nodes {
+			ast.Inspect(n, func(m ast.Node) bool {
+				if id, ok := m.(*ast.Ident); ok {
+					if obj := f.Info.Uses[id]; obj != nil && f.locals[obj] {
+						u[obj] = true
+					}
+				}
+				return true
+			})
+		}
+		// a range statement reads its operand at the loop head
+		if rs, ok := b.Stmt.(*ast.RangeStmt); ok && b.Kind == cfg.KindRangeLoop {
+			ast.Inspect(rs.X, func(m ast.Node) bool {
+				if id, ok := m.(*ast.Ident); ok {
+					if obj := f.Info.Uses[id]; obj != nil && f.locals[obj] {
+						u[obj] = true
+					}
+				}
+				return true
+			})
+		}
+	}
+	// live-in = use ∪ live-out (no kill set: a use-based over-approximation, sound for dropping facts only when dead)
+	for changed := true; changed; {
+		changed = false
+		for i := len(f.CFG.Blocks) - 1; i >= 0; i-- {
+			b := f.CFG.Blocks[i]
+			if !b.Live {
+				continue
+			}
+			li := f.liveIn[b.Index]
+			if li == nil {
+				li = map[types.Object]bool{}
+				f.liveIn[b.Index] = li
+			}
+			for o := range use[b.Index] {
+				if !li[o] {
+					li[o] = true
+					changed = true
+				}
+			}
+			for _, s := range b.Succs {
+				for o := range f.liveIn[s.Index] {
+					if !li[o] {
+						li[o] = true
+						changed = true
+					}
+				}
+			}
+		}
+	}
+}
+
+// dropDead removes facts that mention a local variable which is dead at the entry of b.
+func (a *Analysis) dropDead(b *cfg.Block, st State) State {
+	f := a.Fn
+	if !st.Reachable() || a.KeepDead {
+		return st
+	}
+	li := f.liveIn[b.Index]
+	dead := func(t *Term) bool { return t.K == 'v' && t.Obj != nil && f.locals[t.Obj] && !li[t.Obj] }
+	// only facts that are about dead variables alone (v op constant, boolean v):
+	// relations between a dead variable and live terms may still connect live terms
+	onlyDead := func(t *Term) bool {
+		return !t.Mentions(func(s *Term) bool {
+			switch s.K {
+			case 'v':
+				return !dead(s)
+			case 'c', 'n', 'b', 'u':
+				return false
+			}
+			return true
+		})
+	}
+	// dead variables that are related to live terms by some atom are kept entirely
+	related := map[types.Object]bool{}
+	for _, d := range st.D {
+		for _, l := range d.L {
+			if !l.A.Mentions(dead) {
+				continue
+			}
+			rel := false
+			for _, t := range l.A.Terms() {
+				if !onlyDead(t) {
+					rel = true
+				}
+			}
+			if rel {
+				l.A.Mentions(func(t *Term) bool {
+					if dead(t) {
+						related[t.Obj] = true
+					}
+					return false
+				})
+			}
+		}
+	}
+	return st.Kill(func(at *Atom) bool {
+		if !at.Mentions(dead) {
+			return false
+		}
+		if at.Mentions(func(t *Term) bool { return dead(t) && related[t.Obj] }) {
+			return false
+		}
+		return true
+	})
 }
 
 // Locate finds the CFG node that contains the given AST node.
@@ -198,6 +362,8 @@ type Analysis struct {
 	visits   map[int32]int
 	// StopAt: control does not continue past these CFG nodes (used for "before X" queries)
 	StopAt map[ast.Node]bool
+	// KeepDead keeps facts about dead local variables (for queries about them)
+	KeepDead bool
 }
 
 // Analyze runs from the function entry with an assumption (True for none).
@@ -281,10 +447,13 @@ func (a *Analysis) run(start *cfg.Block, idx int, init State) {
 			}
 		}
 		in = a.scopeExit(b, in)
+		in = a.dropDead(b, in)
 		a.visits[b.Index]++
 		if old, ok := a.In[b.Index]; ok {
-			if a.visits[b.Index] > 8 {
+			if a.visits[b.Index] > 24 {
 				in = Join(old, in).Collapse()
+			} else if a.visits[b.Index] > 6 {
+				in = Join(old, in)
 			}
 			if old.Key() == in.Key() {
 				continue
